@@ -132,7 +132,8 @@ LET_READER_LABELS = {}
 
 def corpus_shape(dl, src):
     if src in LET_READER_LABELS:
-        return dl + " :: letreaders[" + LET_READER_LABELS[src] + "]"
+        lab = LET_READER_LABELS[src]
+        return dl + (" :: " + lab.replace("setops ", "setops[", 1) + "]" if lab.startswith("setops ") else " :: letreaders[" + lab + "]")
     return dl + " :: corpus[" + " ".join(t for t in ("join:", "append:", "group1(", "take ", "sort{", "window:") if re.search(r"\b" + re.escape(t.strip(":({ ")) + r"\b", src)) + "]:" + re.sub(r"\s+", " ", src)[:60]
 
 
@@ -161,6 +162,58 @@ def let_reader_programs():
 
 
 FEATURES_DB += let_reader_programs()
+
+
+def set_operation_programs():
+    """Set operations whose two sides have to stay aligned column by column: the top side in seven forms (plain
+    projection, a derive after it, a derive that feeds another derive, a derive consumed by the projection, filters
+    in between, all columns of the table) x the bottom side (inline projection, projection with its own derive, a
+    let read by its bare name) x append / remove / intersect x what follows (nothing, projections that prune and
+    re-order, filter, derive, sort, aggregate, group, take, a second operation). None of the tops has a sort, take
+    or aggregation in front of the set operation."""
+    tops = {   # name -> (pipeline, frame)
+        "sel": ("from t1 | select {id, k}", ["id", "k"]),
+        "sel_derive": ("from t1 | select {id, k} | derive {w = id * 2}", ["id", "k", "w"]),
+        "derive_chain": ("from t1 | select {id, k} | derive {w = id * 2} | derive {z = w + 1}", ["id", "k", "w", "z"]),
+        "derive_sel": ("from t1 | derive {w = id * 2} | select {id, z = w + 1}", ["id", "z"]),
+        "chain_sel_mid": ("from t1 | derive {w = id * 2} | select {id, k, w} | derive {z = w + k}", ["id", "k", "w", "z"]),
+        "filter_mid": ("from t1 | select {id, k} | derive {w = id * 2} | filter w > 2 | derive {z = w + 1}", ["id", "k", "w", "z"]),
+        "renamed": ("from t1 | select {i = id, kk = k} | derive {z = i + kk}", ["i", "kk", "z"]),
+    }
+    src_of = {"id": "id", "k": "k", "w": "a", "z": "c", "i": "id", "kk": "k"}
+    afters = {
+        "none": "", "prune_reorder": "select {%(last)s, %(first)s}", "prune_first": "select {%(first)s}", "prune_last": "select {%(last)s}",
+        "filter": "filter %(last)s > 0", "derive": "derive {q = %(last)s + 1}", "derive_select": "derive {q = %(last)s + 1} | select {q}",
+        "sort_select": "sort {%(first)s} | select {%(last)s}", "aggregate": "aggregate {n = count this, m = max %(last)s}",
+        "group": "group %(first)s (aggregate {m = max %(last)s})", "take": "take 3", "again": "%(op)s (%(bottom)s)",
+    }
+    out = []
+    for tn, (top, frame) in sorted(tops.items()):
+        named = ", ".join(("%s = %s" % (c, src_of[c])) if c != src_of[c] else c for c in frame)
+        bottoms = {
+            "inline": "from t2 | select {%s}" % named,
+            "derived": "from t2 | derive {u = c - 1} | select {%s}" % ", ".join(("%s = %s" % (c, "u" if c == frame[-1] and c not in ("id", "k") else src_of[c])) if c != src_of[c] else c for c in frame),
+            "let": None,
+        }
+        for bn, bottom in sorted(bottoms.items()):
+            for op in ("append", "remove", "intersect"):
+                for an, after in sorted(afters.items()):
+                    if op != "append" and an in ("again",):
+                        continue
+                    pre = ""
+                    b = bottom
+                    if bn == "let":
+                        pre = "let bt = (%s)\n" % bottoms["inline"]
+                        b = "from bt"
+                    arg = "bt" if bn == "let" else "(" + b + ")"
+                    a = after % {"first": frame[0], "last": frame[-1], "op": op, "bottom": bottoms["inline"]}
+                    src = pre + top + " | " + op + " " + arg + ((" | " + a) if a else "")
+                    LET_READER_LABELS[src] = "setops top:%s bottom:%s op:%s after:%s" % (tn, bn, op, an)
+                    out.append(src)
+    return out
+
+
+FEATURES_DB += set_operation_programs()
 
 
 def _shard(seed, shard, n_rel, corpus_srcs):
